@@ -207,7 +207,14 @@ pub fn run_program(src: &str, out: &mut Out, hist: &mut Hist) {
             }
             counts.sort();
             hist.add("dup:exported");
-            out.case(&req, &format!("casts{}{}", if counts.is_empty() { "" } else { " " }, counts.iter().map(|c| c.to_string()).collect::<Vec<_>>().join(" ")), "ok");
+            // text leg: the emitted TEXT of the module denotes the tree whose clauses were just counted
+            let t = crate::c02::text::check_module(&ir, &m, hist);
+            let tf = t.module_fails.iter().chain(t.per_fn.values().flatten()).next().cloned();
+            let oracle = match tf {
+                Some(f) => format!("FAIL:{}", f),
+                None => "ok".to_string(),
+            };
+            out.case(&req, &format!("casts{}{}", if counts.is_empty() { "" } else { " " }, counts.iter().map(|c| c.to_string()).collect::<Vec<_>>().join(" ")), &oracle);
         }
         Ok(Err(e)) => {
             let text = one_line(&format!("{:?}", e));
